@@ -34,7 +34,7 @@ def check(ctx):
     ctx.assume("custom server_priority_function / service disciplines return an element of their argument")
 
 
-def attach_detach(ctx, P, views, iters):
+def attach_detach(ctx, P, views, iters, skip=()):
     ob = ctx.ob("R13.att", "every attach_server(S, I): S is free by find/filter or just detached and alive; I is chosen-waiting, interrupted-head or the class-changer")
     ob2 = ctx.ob("R13.det", "every detatch_server(S, I) has S == I.server")
     done = set()
@@ -59,6 +59,8 @@ def attach_detach(ctx, P, views, iters):
                     reason, msg = "chosen-customer-not-tested", "choose_next_customer() may return None"
                 elif reason is None and ck not in ("CHOSEN", "INTERRUPTED", "CLASSCHANGER"):
                     reason, msg = "customer-provenance-" + ck.lower(), "the customer given a server is not one selected among those without server"
+                if reason and any(w_.split(".")[-1] in skip for w_ in ctx._anchor_wheres(site.method)):
+                    reason = None
                 if reason:
                     arg_s = "server" if sk == "DETACHED" else site.server.split("__")[0]
                     construct = "attach_server(%s, %s)" % (unparse(e.node.args[0]) if e.node.args else "?", unparse(e.node.args[1]) if len(e.node.args) > 1 else "?")
@@ -179,6 +181,13 @@ def class_change_disarmed(ctx, P, views, iters):
     ctx.floor("service starts of waiting customers", n, 5)
 
 
+def _ancestors_until(n, stop):
+    p = getattr(n, "_parent", None)
+    while p is not None and p is not stop:
+        yield p
+        p = getattr(p, "_parent", None)
+
+
 def _lin(node):
     from ..lin import linear
     t = _Unfold().visit(ast.parse(unparse(node), mode="eval").body)
@@ -270,3 +279,6 @@ def busy_time_accounting(ctx, P, views):
                 want(cls, "find_server_utilisation", x, x.args[0], {v + "." + f: 1}, "each live server's %s is what must be added" % f)
                 if not (isinstance(lp, ast.For) and unparse(lp.iter) == "self.servers"):
                     ctx.violation(ob, "R8.busy-time", "%s.find_server_utilisation" % cls.name, unparse(x)[:80], "not-all-servers", "every live server must be counted", loc(x))
+                elif any(isinstance(y, (ast.Continue, ast.Break)) for y in ast.walk(lp)) or any(isinstance(a_, ast.If) for a_ in _ancestors_until(x, lp)):
+                    ctx.violation(ob, "R8.busy-time", "%s.find_server_utilisation" % cls.name, unparse(x)[:80], "not-all-servers",
+                                  "every live server must be counted: the loop skips some servers (a server working overtime is still alive and has not been archived)", loc(x))
